@@ -1401,3 +1401,8 @@ M('C19', 'surface normal with swapped tangents', 'odl/tomo/geometry/detector.py'
 M('C19', '2d surface normal loses its sign', 'odl/tomo/geometry/detector.py',
   "            return -perpendicular_vector(self.surface_deriv(param))",
   "            return perpendicular_vector(self.surface_deriv(param))", 'C19-R8')
+M('C14', 'fromgrid ignores negative axis keys of min_pt', 'odl/discr/partition.py',
+  """        min_pt.update({i: None for i in range(grid.ndim)
+                       if i not in min_pt and i - grid.ndim not in min_pt})""",
+  """        min_pt.update({i: None for i in range(grid.ndim) if i not in min_pt})""",
+  'uniform_partition_fromgrid[min_pt={-1: v}')
